@@ -329,6 +329,7 @@ func runC44(c *core.Ctx) {
 				continue
 			}
 			ops := eng.CodecSeq(fn)
+			helperOwner := false
 			// inner unsigned call on the receiver
 			inner := ""
 			for _, ci := range ir.Calls(fn, func(ci ssa.CallInstruction) bool {
@@ -336,6 +337,34 @@ func runC44(c *core.Ctx) {
 				return f != nil && strings.HasSuffix(strings.ToLower(f.Name()), "unsigned") && len(ci.Common().Args) > 0 && ci.Common().Args[0] == ssa.Value(fn.Params[0])
 			}) {
 				inner = ci.Common().StaticCallee().Name()
+			}
+			// the trailer may be written / read by a same-receiver helper handed the stream
+			for _, ci := range ir.Calls(fn, func(ci ssa.CallInstruction) bool {
+				f := ci.Common().StaticCallee()
+				return f != nil && f.Pkg == fn.Pkg && len(f.Blocks) > 0 && !strings.HasSuffix(strings.ToLower(f.Name()), "unsigned") &&
+					len(ci.Common().Args) > 1 && ci.Common().Args[0] == ssa.Value(fn.Params[0]) && f != fn
+			}) {
+				h := ci.Common().StaticCallee()
+				hops := eng.CodecSeq(h)
+				if len(hops) == 0 {
+					continue
+				}
+				if len(ops) > 0 && ci.Pos() < ops[0].Pos {
+					ops = append(append([]eng.CodecOp{}, hops...), ops...)
+				} else {
+					ops = append(ops, hops...)
+				}
+				// the owner key conversion sits there too
+				for _, k := range ir.Calls(h, func(k ssa.CallInstruction) bool {
+					o := ir.CalleeObj(k)
+					return o != nil && (o.Name() == "SerializePublicKey" || o.Name() == "DeserializePublicKey")
+				}) {
+					if ir.CalleeObj(k).Name() == "SerializePublicKey" {
+						helperOwner = helperOwner || isFieldNamed(k.Common().Args[0], "Owner")
+					} else if v, isV := k.(ssa.Value); isV {
+						helperOwner = helperOwner || storedIntoField(v, "Owner")
+					}
+				}
 			}
 			tail := eng.CodecSeqString(ops)
 			want := "varbytes: varbytes:Signature"
@@ -355,6 +384,7 @@ func runC44(c *core.Ctx) {
 					okOwner = storedIntoField(v, "Owner")
 				}
 			}
+			okOwner = okOwner || helperOwner
 			c.Decide(okTail && okOwner, "C44.payload-schema", fn, n+" = unsigned part, then Owner public key, then Signature", c.P.Rel(fn.Pos()), sprintf("inner %q tail %q owner %v", inner, tail, okOwner))
 		}
 		// Verify
